@@ -36,7 +36,7 @@ async function workerMain(id, tier, shard, nshards, seed) {
   const st = {
     evaluations: 0, states: 0, transitions: 0, roots: 0, judged: 0, skipped: 0,
     nontrivial: 0, engineErrors: [], spaces: {}, hashes: new Set(), ntHashes: new Set(),
-    samples: [], failing: [], maxDepth: 0, clauses: {},
+    samples: [], failing: [], maxDepth: 0, clauses: {}, detLog: [],
   };
   const spaces = check.spaces(tier);
   let pending = null;
@@ -65,6 +65,7 @@ async function workerMain(id, tier, shard, nshards, seed) {
       for (const cl of j.clauses || []) st.clauses[cl] = (st.clauses[cl] || 0) + 1;
       if (st.samples.length < 3 && shard === 0) st.samples.push({ space: item.space, case: check.caseKey(item.c), src: item.reqs[0] && item.reqs[0].src, opts: item.reqs[0] && item.reqs[0].opts });
       if (j.viol && j.viol.length) st.failing.push({ c: item.c, viol: j.viol, space: item.space });
+      if (check.secondPass && j.det !== undefined) st.detLog.push({ c: item.c, det: j.det, space: item.space });
     }
   };
   let index = 0;
@@ -95,6 +96,23 @@ async function workerMain(id, tier, shard, nshards, seed) {
     await flush();
   }
   if (pending) await judgeBatch(pending);
+
+  // ---- optional second pass: every case again in a brand-new driver process, in reversed order
+  if (check.secondPass && st.detLog.length) {
+    const d2 = new Driver();
+    const log = st.detLog.slice().reverse();
+    for (let k = 0; k < log.length; k += BATCH) {
+      const part = log.slice(k, k + BATCH);
+      const resps = await d2.requestAll(part.map((e) => check.requests(e.c)[0]));
+      st.evaluations += part.length;
+      part.forEach((e, i) => {
+        const det = check.detOf(resps[i]);
+        if (det !== e.det) st.failing.push({ c: e.c, space: e.space, viol: [{ clause: 'deterministic-across-processes', diff: 'output:different', msg: 'a fresh process (cases in reversed order) produced a different result for the same (source, options)', expected: e.det, observed: det }] });
+      });
+    }
+    st.secondPass = log.length;
+    d2.close();
+  }
 
   // ---- reduction of every failing case to a 1-minimal failing case
   const memo = new Map();
@@ -152,7 +170,7 @@ async function workerMain(id, tier, shard, nshards, seed) {
     judged: st.judged, skipped: st.skipped, nontrivial: st.nontrivial, engineErrors: st.engineErrors.slice(0, 20),
     engineErrorCount: st.engineErrors.length, spaces: st.spaces, hashes: [...st.hashes], ntHashes: [...st.ntHashes],
     samples: st.samples, maxDepth: st.maxDepth, clauses: st.clauses, failingCases: st.failing.length,
-    reductionEvals: st.reductionEvals || 0, driverSpawns: driver.spawns,
+    reductionEvals: st.reductionEvals || 0, driverSpawns: driver.spawns, secondPass: st.secondPass || 0,
     reduced: [...reduced.values()].map((r) => ({
       clause: r.clause, diff: r.diff, minimal: r.minimal, minimal_key: r.minimal_key, count: r.count,
       example: r.example, example_key: r.example_key, space: r.space,
@@ -266,6 +284,7 @@ async function parentMain(id, tier, opts) {
       known_findings_hit: [...seenKf].map((f) => f.minimal),
       shards: nshards,
       driver_respawns: sum('driverSpawns') - ok.length,
+      second_pass_fresh_process_reversed: sum('secondPass'),
       engine_errors: engineErrorCount,
     },
     assumptions: check.assumptions || [],
